@@ -68,6 +68,8 @@ class AsmData:
                             "len": L, "bounded": "string length %d, symbolic printable characters" % L})
             out.append({"id": "FCC/%s/comment" % {'"': "dq", "/": "slash", "'": "sq"}[delim], "kind": "fcc-comment", "delim": delim,
                         "bounded": "2 symbolic characters + trailing comment"})
+            out.append({"id": "FCC/%s/comment-with-delimiters" % {'"': "dq", "/": "slash", "'": "sq"}[delim], "kind": "fcc-comment", "delim": delim,
+                        "comment": "  ; don't \"quote\" 5/8 of it", "bounded": "2 symbolic characters + trailing comment holding every delimiter"})
         for i in range(len(FCC_STRINGS)):
             out.append({"id": "FCC/concrete/%d" % i, "kind": "fcc-concrete", "i": i, "bounded": "one concrete string"})
         for k in ("EQU", "ORG", "SETDP", "NAM", "END", "END-op", "INCLUDE", "SET"):
@@ -248,10 +250,10 @@ class AsmData:
         chars = [env.hole_char("s%d" % i, PRINTABLE) for i in range(2)]
         for c in chars:
             env.assume((c != delim) if native else _neq(c, delim))
-        lines = [env.text(" FCC ", delim, chars, delim, "  ; a comment\n")]
+        lines = [env.text(" FCC ", delim, chars, delim, cell.get("comment", "  ; a comment"), "\n")]
         env.info["lines"] = lines
         run = assemble(env, lines)
-        self._fcc_check(env, run, chars, native, "FCC/%s/comment" % delim)
+        self._fcc_check(env, run, chars, native, "FCC/%s/%s" % (delim, "comment-with-delimiters" if cell.get("comment") else "comment"))
 
     def _fcc_check(self, env, run, chars, native, tag):
         def cls(c):
